@@ -11,6 +11,7 @@ tables, re-extracted from /repo on every run into lean/YashModel/Generated/Quote
   dqEscapable                                         yash-syntax/src/parser/lex/word.rs   fn double_quote / is_escapable
   specialParamChars                                   yash-syntax/src/syntax/conversions.rs SpecialParam::from_char
   separatorPrefixes                                   yash-builtin/src/typeset/print_variables.rs print_one (`name.starts_with(..)`)
+  functionSeparatorPrefixes                           yash-builtin/src/typeset/print_functions.rs print_one (`function.name.starts_with(..)`)
   whitespaceRanges                                    Rust std `char::is_whitespace` (Unicode White_Space); std is not
                                                       part of /repo, so this is a constant here, compared with the
                                                       real `char::is_whitespace` over code points by harness c07 (`c` leg).
@@ -160,6 +161,20 @@ def quote_tables(T):
     if not sep_chars or shape not in (want1, wantn):
         T.fail(f"print_variables.rs print_one: unexpected starts_with argument `{m.group(1)}`")
 
+    # --- print_functions.rs: the same for the attribute line `typeset -f<opts> [-- ]name`
+    pf = re.sub(r"\s+", " ", strip_comments(T.read("yash-builtin/src/typeset/print_functions.rs")))
+    m = re.search(r'let separator = if function\.name\.starts_with\(([^)]*)\) \{ "-- " \} else \{ "" \};', pf)
+    if not m:
+        T.fail("print_functions.rs print_one: `separator` is no longer decided by `function.name.starts_with(<chars>)`")
+    fsep_chars = chars_of(T, m.group(1))
+    shape = re.sub(r"\s+", "", m.group(1))
+    want1 = "'" + fsep_chars[0] + "'" if len(fsep_chars) == 1 else None
+    wantn = "[" + ",".join("'" + c + "'" for c in fsep_chars) + "]"
+    if not fsep_chars or shape not in (want1, wantn):
+        T.fail(f"print_functions.rs print_one: unexpected starts_with argument `{m.group(1)}`")
+    if 'writeln!( output, "{} -f{} {}{}", context.builtin_name, options_to_print, separator, name )' not in pf:
+        T.fail("print_functions.rs print_one: the attribute line format has changed")
+
     ranges = ", ".join(f"({a}, {b})" for a, b in WHITE_SPACE)
     infix_l = "[" + ", ".join(lean_chars(T, list(s)) for s in infix) + "]"
     pairs_l = "[" + ", ".join(f"({T.lean_char(a)}, {T.lean_char(b)})" for a, b in pairs) + "]"
@@ -187,6 +202,8 @@ def dqEscapable : List Char := {lean_chars(T, dq_escapable)}
 def specialParamChars : List Char := {lean_chars(T, special)}
 /-- yash-builtin `print_variables.rs` `print_one`: first characters of a name before which `-- ` is printed -/
 def separatorPrefixes : List Char := {lean_chars(T, sep_chars)}
+/-- yash-builtin `print_functions.rs` `print_one`: first characters of a function name before which `-- ` is printed -/
+def functionSeparatorPrefixes : List Char := {lean_chars(T, fsep_chars)}
 /-- Rust `char::is_whitespace` (Unicode White_Space) as inclusive code point ranges; checked against the
     real function by harness `c07` -/
 def whitespaceRanges : List (Nat × Nat) := [{ranges}]
